@@ -25,6 +25,10 @@ from .tape import Tape, derive_seed, shrink
 VERIF = os.path.dirname(os.path.dirname(os.path.abspath(__file__)))
 EVIDENCE_DIR = os.path.join(VERIF, "evidence")
 REPLAY_DIR = os.path.join(VERIF, "replays")
+if os.path.realpath(core.REPO) != "/repo":
+    # sensitivity runs against a patched scratch copy must not overwrite the evidence of /repo itself
+    EVIDENCE_DIR = os.path.join(os.environ.get("TMPDIR", "/tmp"), "sfsim-mutant-evidence")
+    REPLAY_DIR = os.path.join(os.environ.get("TMPDIR", "/tmp"), "sfsim-mutant-replays")
 KNOWN_FILE = os.path.join(VERIF, "known_findings.jsonl")
 DEFAULT_SEED = 20260921
 _RUNS = 0
